@@ -156,6 +156,17 @@ def run_one(ch, cfg):
     if drop_target and len(doc["targets"]) > 0:
         doc["targets"] = doc["targets"][1:]
         w.fs.put(certfile, json.dumps(doc).encode())
+    own_root = False
+    if platform == "sgx" and ch.draw(6, "own-root-in-certificate") == 1:
+        # the attestation file brings its own root along, under the reserved name of the root of
+        # trust, while the operator chose another root authority: the operator's root decides
+        import base64
+        own_root = True
+        root_alt = "other"
+        doc["elements"].insert(ch.draw(len(doc["elements"]) + 1, "own-root.pos"), {
+            "name": "sgx_root", "type": "x509_pem", "signed_by": "sgx_root",
+            "message": base64.b64encode(info["pki"].root_der).decode()})
+        w.fs.put(certfile, json.dumps(doc).encode())
     # ---- root
     if platform == "ledger":
         if root_alt == "other":
@@ -199,8 +210,9 @@ def run_one(ch, cfg):
         again.append((which, st2, ref2))
     w.entropy_on = False
     printed = A.parse_verify_output(out)
-    desc = "%s device-deviation=%s keys-file=%s root=%s drop-target=%s -> exit %s; reference %s" % (
-        platform, deviation, keys_alt, root_alt, drop_target, st,
+    desc = "%s device-deviation=%s keys-file=%s root=%s%s drop-target=%s -> exit %s; reference %s" % (
+        platform, deviation, keys_alt, root_alt, "+own-root-in-certificate" if own_root else "",
+        drop_target, st,
         "success" if ref[0] else "failure(%s)" % ref[1])
     if ref[0] and st != 0:
         viol.append(("verify/rejected-valid", desc + " | " + out[-240:]))
